@@ -10,7 +10,7 @@ import json
 import random
 import time
 
-from lib import common, pathcover
+from lib import common, pathcover, tracecheck
 from lib.common import log
 
 SPEC = common.SPEC / "observer"
@@ -140,6 +140,105 @@ def compare(g, probes, path, sig, recs, pid):
     return c06, c13
 
 
+YLEVELS = ["a", "b", "c", "r:.*", "r:a|b", "r:[^a]", "r:c"]
+YPROBES = [("a",), ("c",), ("a", "b"), ("r:.*", "r:.*"), ("a", "r:[^a]", "c"), ("r:.*", "r:.*", "r:.*"), ("r:a|b", "r:.*", "r:.*", "r:.*"),
+           ("a", "b", "c", "a"), ("r:[^a]",), ("b", "r:a|b")]
+
+
+def y_scripts(seed, count):
+    """Random histories over deeper trees (keys of depth <= 4 over {a,b,c}, up to 8 subscriptions)."""
+    rnd = random.Random("router-%s" % seed)
+    lines, cfgs = [], {}
+    for n in range(count):
+        rt = rnd.choice(["plain", "conc"])
+        sig = rnd.choice(SIGS)
+        xid = "y%d" % n
+        steps = []
+        alive, invalid, nid = [], set(), 1
+        for k in range(rnd.randrange(10, 40)):
+            r = rnd.random()
+            if (r < 0.3 or not alive) and nid <= 8:
+                key = tuple(rnd.choice("abc") for _ in range(rnd.randrange(1, 5)))
+                steps.append(("Subscribe", key, nid))
+                alive.append(nid)
+                nid += 1
+            elif r < 0.42 and [i for i in alive if i not in invalid]:
+                i = rnd.choice([i for i in alive if i not in invalid])
+                alive.remove(i)
+                steps.append(("Unsubscribe", (), i))
+            elif r < 0.50 and [i for i in alive if i not in invalid]:
+                i = rnd.choice([i for i in alive if i not in invalid])
+                invalid.add(i)
+                steps.append(("Invalidate", (), i))
+            elif r < 0.80:
+                steps.append(("Notify", tuple(rnd.choice(YLEVELS) for _ in range(rnd.randrange(1, 5))), 0))
+            else:
+                steps.append(("Shrink", tuple(rnd.choice(["r:.*", "r:.*", "a", "b", "r:[^a]"]) for _ in range(rnd.randrange(1, 5))), 0))
+        lines.append("X %s router=%s sig=%s table=0 probes=%s" % (xid, rt, sig, ";".join(pstr(p) for p in YPROBES)))
+        for k, (op, p, i) in enumerate(steps):
+            if op == "Subscribe":
+                lines.append("S op=Subscribe k=%s" % pstr(p))
+            elif op in ("Unsubscribe", "Invalidate"):
+                lines.append("S op=%s id=%d" % (op, i))
+            elif op == "Notify":
+                lines.append("S op=Notify p=%s a=%d" % (pstr(p), k + 1))
+            else:
+                lines.append("S op=Shrink p=%s" % pstr(p))
+        lines.append("E")
+        cfgs[xid] = {"rt": rt, "sig": sig, "steps": steps}
+    return "\n".join(lines) + "\n", cfgs
+
+
+def y_check(pid, tier, seed, exe, verdict):
+    count = {"quick": 400, "thorough": 8000}[tier]
+    script, cfgs = y_scripts(seed, count)
+    res = common.run_harness(exe, script)
+    execs = {}
+    for x, c in cfgs.items():
+        recs = res.get(x, [])
+        evs = [{"op": "Probes", "p": [], "id": 0, "dl": [], "ret": 0, "dp": 0, "ex": [], "probes": [list(p) for p in YPROBES]}]
+        bad_values = None
+        for r in recs:
+            if r.get("e") != "Obs":
+                continue
+            op, p, i = c["steps"][r["i"]]
+            if op == "Notify" and any(e[1] != EXPECT[c["sig"]](r["i"] + 1) for e in r["log"]) and bad_values is None:
+                bad_values = (r["i"], p, [e[1] for e in r["log"]])
+            evs.append({"op": op, "p": list(p), "id": i, "dl": sorted(e[0] for e in r["log"]), "ret": max(r["ret"], 0), "dp": r["dp"], "ex": r["ex"], "probes": []})
+        execs[x] = evs
+        crash = next((r for r in recs if r.get("e") == "Crash"), None)
+        hist = ["%s %s %s" % (op, pstr(p), i or "") for op, p, i in c["steps"]]
+        if pid == "C06" and bad_values:
+            verdict.violation("router[%s,%s] random history: received values" % (c["rt"], c["sig"]),
+                              "step %d notify(%s): received values %s, every receiver must get %s" % (bad_values[0], pstr(bad_values[1]), bad_values[2], EXPECT[c["sig"]](bad_values[0] + 1)),
+                              {"component": "router", "xid": x, "router": c["rt"], "sig": c["sig"], "history": hist[:bad_values[0] + 1]})
+        if crash is not None:
+            k = sum(1 for r in recs if r.get("e") == "Obs")
+            opn = c["steps"][k][0] if k < len(c["steps"]) else "?"
+            if (pid == "C13") == (opn == "Shrink"):
+                verdict.violation("router[%s,%s] random history: sanitizer / signal in %s" % (c["rt"], c["sig"], opn), " ".join(crash.get("stderr", "").split())[:300],
+                                  {"component": "router", "xid": x, "router": c["rt"], "sig": c["sig"], "history": hist[:k + 1]})
+    acc, rej, tst = tracecheck.validate(SPEC, "RouterTraceMC.tla", "RouterTrace.cfg", execs)
+    log("[%s] random histories: %d executions, %d rejected, TLC %.1fs" % (pid, len(execs), len(rej), tst["tlc_wall_s"]))
+    for x, info in rej.items():
+        nx = info.get("next") or {}
+        # who owns the rejection: a wrong delivery set / return value is C06's, wrong exists()/depth()/tree after a shrink is C13's
+        k = info["matched"]   # index of the rejected event (0 = the probes header)
+        c = cfgs[x]
+        own = "C06"
+        if nx.get("op") == "Shrink":
+            own = "C13"
+        elif nx.get("op") == "Notify":
+            own = "C06"
+        else:
+            own = "C13"     # subscribe / unsubscribe / invalidate only fail through exists()/depth()
+        if own == pid:
+            hist = ["%s %s %s" % (op, pstr(p), i or "") for op, p, i in c["steps"]]
+            verdict.violation("router[%s,%s] random history rejected at %s" % (c["rt"], c["sig"], nx.get("op")), {"matched": k, "next": {a: nx.get(a) for a in ("op", "p", "id", "dl", "ret", "dp")}},
+                              {"component": "router", "xid": x, "router": c["rt"], "sig": c["sig"], "history": hist[:k]})
+    return len(execs), tst
+
+
 def check(pid, tier, seed):
     t0 = time.time()
     verdict = common.Verdict(pid)
@@ -176,7 +275,9 @@ def check(pid, tier, seed):
             if len(samples) < 2 and len(path) > 5:
                 samples.append({"source": "tlc-path " + cfg, "router": rt, "sig": sig, "history": [step_line(g, ei, k)[2:] for k, ei in enumerate(path)][:20]})
         log("[%s] graph %s: %d states / %d edges, %d executions so far" % (pid, cfg, len(g.states), len(g.edges), nexec))
-    cov = {"states": tot_states, "transitions": tot_edges, "traces_validated_against_impl": nexec, "samples": samples,
+    ny, tst = y_check(pid, tier, seed, exe, verdict)
+    nexec += ny
+    cov = {"states": tot_states, "transitions": tot_edges, "traces_validated_against_impl": nexec, "samples": samples, "trace_validation": [tst],
            "exhaustive": bool(tot_cov == tot_edges), "evaluations": nexec, "distinct_nontrivial": len(trees),
            "rule": "path cover of every edge of TLC's graphs of Router.tla, executed for SubjectRouter and ConcurrentSubjectRouter and the listed argument "
                    "signatures; after every step exists() of every probe pattern, depth(), deliveries with received values and notify's return value are "
